@@ -22,7 +22,7 @@ func init() {
 		ID: "C18",
 		Rule: "cases: internal documents built from validated keys (6 types x purpose subsets, consistent type/material pairs incl. Ed25519 2018/2020 with JWK -> base58 / multibase), services (all endpoint shapes, extra members) and also-known-as; all 2^5 combinations of {@base, method context, key-context override, include published, include unpublished}; resolution states incl. deactivated, unpublished, zero times; operation lists of 0..12 entries with (time, number) drawn from {0..3}^2 (ties and disagreeing orders dominate) and duplicated canonical references. Oracle: a small reference transformer written from the statement builds the complete expected document and metadata; operation lists are checked as sorted by (time, number) and as a permutation of the de-duplicated input. distinct = (option combination, key types, list-length and duplicate pattern).",
 		Assumptions: []string{"reference transformer in the harness", "own base58 encoder"},
-		Require:     []string{"transforms", "keys", "services", "published-lists", "unpublished-lists", "ed25519-conversions", "generic-transformer"},
+		Require:     []string{"transforms", "keys", "services", "published-lists", "unpublished-lists", "ed25519-conversions", "generic-transformer", "retained-results-rechecked"},
 		Run:         runC18,
 	})
 }
@@ -44,8 +44,18 @@ var purposeProp = map[string]string{"authentication": "authentication", "asserti
 func runC18(r *fw.Runner) {
 	for b := 0; b < r.N(150, 8000); b++ {
 		r.Case("transform", func(c *fw.Case) {
+			// one transformer instance per option combination is reused for several documents, and every retained
+			// result is verified a second time after all calls: results of one instance must not influence each other
+			cache := map[int]*c18Tr{}
+			var rechecks []func()
 			for i := 0; i < 20; i++ {
-				c18Case(c, (c.Idx*20+i)%32)
+				combo := (c.Idx*4 + i%4) % 32
+				if re := c18Case(c, combo, cache); re != nil {
+					rechecks = append(rechecks, re)
+				}
+			}
+			for _, re := range rechecks {
+				re()
 			}
 		})
 	}
@@ -206,27 +216,46 @@ func c18Key(r *fw.Rand, id string) map[string]interface{} {
 	return gen.DocKey(r, id, typ, gen.RandPurposes(r, typ), material)
 }
 
-func c18Case(c *fw.Case, combo int) {
-	r := c.Rng
+// c18Tr is one transformer instance with the configuration it was built from.
+type c18Tr struct {
+	tr        *didtransformer.Transformer
+	methodCtx []string
+	keyCtx    map[string]string
+}
+
+func c18Transformer(r *fw.Rand, combo int, cache map[int]*c18Tr) *c18Tr {
+	if t, ok := cache[combo]; ok {
+		return t
+	}
 	withBase, withMethodCtx, withKeyCtx, incPub, incUnpub := combo&1 != 0, combo&2 != 0, combo&4 != 0, combo&8 != 0, combo&16 != 0
 	var opts []didtransformer.Option
 	opts = append(opts, didtransformer.WithBase(withBase), didtransformer.WithIncludePublishedOperations(incPub), didtransformer.WithIncludeUnpublishedOperations(incUnpub))
-	methodCtx := []string{}
+	t := &c18Tr{methodCtx: []string{}, keyCtx: c18KeyCtx}
 	if withMethodCtx {
-		methodCtx = []string{"https://w3id.org/did/method/v1", "https://example.org/ctx"}[:r.Range(1, 2)]
-		opts = append(opts, didtransformer.WithMethodContext(methodCtx))
+		all := []string{"https://w3id.org/did/method/v1", "https://example.org/ctx", "https://example.org/ctx3", "https://example.org/ctx4", "https://example.org/ctx5", "https://example.org/ctx6"}
+		t.methodCtx = all[:r.Range(1, 6)]
+		opts = append(opts, didtransformer.WithMethodContext(t.methodCtx))
 	}
-	keyCtx := c18KeyCtx
 	if withKeyCtx {
-		keyCtx = map[string]string{}
+		t.keyCtx = map[string]string{}
 		for k := range c18KeyCtx {
-			keyCtx[k] = "https://override.example/" + k
+			t.keyCtx[k] = "https://override.example/" + k
 		}
 		// two types share one context: it must be listed once
-		keyCtx[gen.TEd2018] = keyCtx[gen.TEd2020]
-		opts = append(opts, didtransformer.WithKeyContext(keyCtx))
+		t.keyCtx[gen.TEd2018] = t.keyCtx[gen.TEd2020]
+		opts = append(opts, didtransformer.WithKeyContext(t.keyCtx))
 	}
-	tr := didtransformer.New(opts...)
+	t.tr = didtransformer.New(opts...)
+	cache[combo] = t
+	return t
+}
+
+// c18Case transforms one state; it returns a function that verifies the retained result once more.
+func c18Case(c *fw.Case, combo int, cache map[int]*c18Tr) func() {
+	r := c.Rng
+	withBase, withKeyCtx, incPub, incUnpub := combo&1 != 0, combo&4 != 0, combo&8 != 0, combo&16 != 0
+	ct := c18Transformer(r, combo, cache)
+	tr, methodCtx, keyCtx := ct.tr, ct.methodCtx, ct.keyCtx
 	rm, doc := c18State(r)
 	pubIn := append([]*operation.AnchoredOperation{}, rm.PublishedOperations...)
 	unpubIn := append([]*operation.AnchoredOperation{}, rm.UnpublishedOperations...)
@@ -247,7 +276,7 @@ func c18Case(c *fw.Case, combo int) {
 	if err != nil {
 		w["err"] = err.Error()
 		c.Failf("transform-error", w, "TransformDocument failed on a validated document: %v", err)
-		return
+		return nil
 	}
 	// ---- expected document
 	objID := func(frag string) string {
@@ -335,13 +364,13 @@ func c18Case(c *fw.Case, combo int) {
 	got, gerr := oracle.Generic(res.Document)
 	if gerr != nil {
 		c.Inconclusive("result-not-json")
-		return
+		return nil
 	}
 	if !oracle.JSONEqual(got, oracle.MustGeneric(exp)) {
 		w["expected_document"], w["got_document"] = exp, got
 		w["diff"] = describeDiff(exp, got)
 		c.Failf("document:"+splitColon(fmt.Sprint(w["diff"])), w, "transformed document differs from the specification (%s)", w["diff"])
-		return
+		return nil
 	}
 	if fmt.Sprint(res.Context) != c18ResCtx {
 		c.Failf("resolution-context", w, "resolution result context is %v", res.Context)
@@ -388,7 +417,7 @@ func c18Case(c *fw.Case, combo int) {
 		w["expected_metadata"], w["got_metadata"] = em, gmm
 		w["diff"] = describeDiff(em, gmm)
 		c.Failf("metadata:"+splitColon(fmt.Sprint(w["diff"])), w, "metadata differs from the state's / info's values (%s)", w["diff"])
-		return
+		return nil
 	}
 	describe := func(ops []*operation.AnchoredOperation) []interface{} {
 		var out []interface{}
@@ -402,7 +431,7 @@ func c18Case(c *fw.Case, combo int) {
 		if msg := c18CheckOps(gotPub, pubIn, true, true); msg != "" {
 			w["input_operations"], w["emitted"] = describe(pubIn), gotPub
 			c.Failf("published-operations:"+splitColon(msg), w, "published operations: %s", msg)
-			return
+			return nil
 		}
 	} else if gotPub != nil {
 		c.Failf("published-operations-unexpected", w, "published operations emitted although not requested / empty")
@@ -412,12 +441,23 @@ func c18Case(c *fw.Case, combo int) {
 		if msg := c18CheckOps(gotUnpub, unpubIn, false, false); msg != "" {
 			w["input_operations"], w["emitted"] = describe(unpubIn), gotUnpub
 			c.Failf("unpublished-operations:"+splitColon(msg), w, "unpublished operations: %s", msg)
-			return
+			return nil
 		}
 	} else if gotUnpub != nil {
 		c.Failf("unpublished-operations-unexpected", w, "unpublished operations emitted although not requested / empty")
 	}
 	c.Sample(map[string]interface{}{"internal_document": doc, "options_bits": combo, "result_document": got})
+	expDoc := oracle.MustGeneric(exp)
+	return func() {
+		c.Evals(1)
+		c.Count("retained-results-rechecked", 1)
+		again, err := oracle.Generic(res.Document)
+		if err != nil || !oracle.JSONEqual(again, expDoc) {
+			w["expected_document"], w["got_document_after_later_calls"] = exp, again
+			w["diff"] = describeDiff(exp, again)
+			c.Failf("retained-result-changed:"+splitColon(fmt.Sprint(w["diff"])), w, "a result obtained earlier from the same transformer instance changed after later calls (%s)", w["diff"])
+		}
+	}
 }
 
 func c18Generic(c *fw.Case) {
